@@ -32,6 +32,18 @@ func (e StdEng) argmaxDenseTensor(t DenseTensor, axis int) (retVal *Dense, err e
 				return nil, errors.Errorf("t is not supported - %T of %v", t, t.Dtype())
 			}
 		} else {
+			// the flat kernel reads the storage as it lies: a transposed or sliced
+			// tensor has to be brought into its logical order first
+			if t.RequiresIterator() {
+				v, ok := t.(View)
+				if !ok || !v.IsMaterializable() {
+					return nil, errors.Errorf("Argmax over all axes does not support non-contiguous tensors that cannot be materialized")
+				}
+				if t, ok = v.Materialize().(DenseTensor); !ok {
+					return nil, errors.Errorf("Argmax: unable to materialize %T", v)
+				}
+				dataA = t.hdr()
+			}
 			if index = e.E.ArgmaxFlat(typ, dataA); index == -1 {
 				return nil, errors.Errorf("t is not supported -  %T of %v", t, t.Dtype())
 			}
@@ -119,6 +131,18 @@ func (e StdEng) argminDenseTensor(t DenseTensor, axis int) (retVal *Dense, err e
 				return nil, errors.Errorf("t is not supported - %T of %v", t, t.Dtype())
 			}
 		} else {
+			// the flat kernel reads the storage as it lies: a transposed or sliced
+			// tensor has to be brought into its logical order first
+			if t.RequiresIterator() {
+				v, ok := t.(View)
+				if !ok || !v.IsMaterializable() {
+					return nil, errors.Errorf("Argmin over all axes does not support non-contiguous tensors that cannot be materialized")
+				}
+				if t, ok = v.Materialize().(DenseTensor); !ok {
+					return nil, errors.Errorf("Argmin: unable to materialize %T", v)
+				}
+				dataA = t.hdr()
+			}
 			if index = e.E.ArgminFlat(typ, dataA); index == -1 {
 				return nil, errors.Errorf("t is not supported -  %T of %v", t, t.Dtype())
 			}
